@@ -36,7 +36,7 @@ EVIDENCE = os.path.join(VERIF, "evidence")
 REPLAYS = os.path.join(VERIF, "replays")
 KNOWN = os.path.join(VERIF, "known_findings.json")
 
-TOTAL_MEM_GB = int(os.environ.get("VERIF_MEM_GB", "40"))
+TOTAL_MEM_GB = int(os.environ.get("VERIF_MEM_GB", "48"))
 MAX_JOBS = int(os.environ.get("VERIF_JOBS", "12"))
 
 ENV = dict(os.environ)
